@@ -24,7 +24,7 @@ claimed = {
    note="The environment model of (a) (which transport calls are possible when) is stated in c05_driver.go and DESIGN.md; schedules outside it are not explored. Real-goroutine interleavings in (b) are sampled, widened by vhook delays. Three genuine defects found by (a) were repaired (fix: commits in known_findings.json).",
    technique="controlled-scheduler execution of the real FSM with an online trace monitor (edges, causes, notification chain) + e2e history monitor under the race detector"),
  "C06": dict(level=E,
-   text="40 (quick) / 1500 (thorough) concurrent request/reply histories per run on real connections (1..64 senders) against a scripted peer that replies now/late/permuted/twice/never, rejects, collides system bytes with primaries and control responses, sends undecodable and unsolicited messages, with random caller cancellation and link drops; call/return events and the peer's read/write logs are joined by unique tokens and scanned offline for ownership (own reply only), exactly-once delivery to handlers in arrival order, outcome class, T3 lower bound and system-bytes uniqueness. Race build." + HELD,
+   text="40 (quick) / 1500 (thorough) concurrent request/reply histories per run on real connections (1..64 senders) against a scripted peer that replies now/late/permuted/twice/never, rejects, collides system bytes with primaries and control responses, sends undecodable and unsolicited messages, with random caller cancellation and link drops; call/return events and the peer's read/write logs are joined by unique tokens and scanned offline for ownership (own reply only), exactly-once delivery to handlers in arrival order, outcome class, T3 lower bound and system-bytes uniqueness; plus slow-write scenarios (the peer stops reading mid-frame, or the send queues behind such a write) in which the T3 error must come no earlier than T3 after the instant the write returned (afterWrite hook). Race build." + HELD,
    note="Unique tokens make the history unambiguous, so the scan is exact for the histories produced; interleavings are sampled (vhook delays at send.afterRegister/afterWrite, recv.beforeDispatch). The genuine (nil,nil) defect it found is repaired (fix: commit).",
    technique="offline history checker over call/return + peer frame logs (ownership, exactly-once, order) under the race detector with delay injection"),
  "C07": dict(level=F,
@@ -36,11 +36,11 @@ claimed = {
    note="Trusts the responder table in c08Model (from the property text / E37). Two scheduling-dependent answers are accepted either way and documented (duplicate Select.rsp racing transaction close; S9F1 gated at write time).",
    technique="reference-model monitor: independent E37 responder FSM vs barrier-fenced outbound frame log of a real connection"),
  "C09": dict(level=F,
-   text="40 (quick) / 480 (thorough) multi-generation histories: each generation ended by one of the 7 drop kinds (peer FIN, RST, stall+write timeout, Close+reopen, linktest failure, T7, T8 - all kinds in every shard) while 8 senders keep sending sync/async/W-bit messages with unique tokens; every frame read by generation G's peer must belong to a call that was open while G existed, replies must carry the tag of the generation that read the primary, waiters must be released (never T3=30 s), and the previous generation's open system bytes replayed by the next peer must not complete anything; senders stalled right after their write (hook) are followed across the drop, and a primary observed on an older generation's peer log while its caller is still waiting is a dead-generation waiter. A SECS-I phase parks a sender behind the line engine's inline handler (contention yield) and ends the generation by Close: the sender must be released with the connection-closed error; its HSMS-SS counterpart wedges the receive path in a data handler while a W-bit sender waits and ends the generation by Close or by a linktest failure. Race build." + HELD,
+   text="40 (quick) / 480 (thorough) multi-generation histories: each generation ended by one of the 7 drop kinds (peer FIN, RST, stall+write timeout, Close+reopen, linktest failure, T7, T8 - all kinds in every shard) while 8 senders keep sending sync/async/W-bit messages with unique tokens; every frame read by generation G's peer must belong to a call that was open while G existed, replies must carry the tag of the generation that read the primary, waiters must be released (never T3=30 s), and the previous generation's open system bytes replayed by the next peer must not complete anything; senders stalled right after their write (hook) are followed across the drop, and a primary observed on an older generation's peer log while its caller is still waiting is a dead-generation waiter. A SECS-I phase parks a sender behind the line engine's inline handler (contention yield) and ends the generation by Close: the sender must be released with the connection-closed error; its HSMS-SS counterpart wedges the receive path in a data handler while a W-bit sender waits and ends the generation by Close or by a linktest failure; and fire-and-forget senders parked on a full 2-slot send queue (peer not reading, receive loop parked on the same queue) must be released when the generation's teardown starts. Race build." + HELD,
    note="The hsmsss phase carries the generation-tag oracle; the SECS-I phase covers only the parked-waiter release (SECS-I line faults are C17/C18). The drop instant relative to each send is sampled, not enumerated.",
    technique="generation-tagged token monitor over per-generation peer logs under the race detector with delay injection"),
  "C10": dict(level=E,
-   text="360 (quick) / 4000 (thorough) hsmsss lifecycle programs plus 96 / 2000 SECS-I programs against a raw TCP peer and a refused-Open-while-connect-pending scenario: 2..5 goroutines of Open/Close/send/UpdateConfig operations concurrent with a hostile peer script (serve, connect-only, drop, reset, stall, refuse, connect inside Close through gated Accept / delayed dial), then Close twice and leak meters (goroutine dump filtered to library frames, Close() on every harness-owned socket/listener, /proc fd count, no dial/listen after Close), double-Open guard, reopen + round trip. Race build; a hang is caught by the shard watchdog with a goroutine dump." + HELD,
+   text="360 (quick) / 4000 (thorough) hsmsss lifecycle programs plus 96 / 2000 SECS-I programs against a raw TCP peer , a refused-Open-while-connect-pending scenario and Close on a socket whose writes block (write timeout disabled / 30 s / 200 ms x idle / sender blocked): 2..5 goroutines of Open/Close/send/UpdateConfig operations concurrent with a hostile peer script (serve, connect-only, drop, reset, stall, refuse, connect inside Close through gated Accept / delayed dial), then Close twice and leak meters (goroutine dump filtered to library frames, Close() on every harness-owned socket/listener, /proc fd count, no dial/listen after Close), double-Open guard, reopen + round trip. Race build; a hang is caught by the shard watchdog with a goroutine dump." + HELD,
    note="hsmsss and secs1 transports; data handlers always return (the property's premise): immediately, after 5-80 ms, or after replying and sending from inside the handler. Close latency bound is close timeout + 5 s. ErrCloseTimeout as a return value is counted, not judged.",
    technique="randomized lifecycle programs with leak meters (goroutines, sockets, fds), latency bound and race detector"),
  "C20": dict(level=E,
@@ -68,7 +68,7 @@ claimed = {
    note="'Control characters' is read as Unicode Cc / bytes 00-1F,7F-9F. One genuine defect was repaired ('>' unescaped); two remain as known findings (localized text is rendered with Go quoting that the parser never unescapes).",
    technique="round-trip runtime monitor over grammar-hostile generated messages and parser-accepted texts x all option combinations"),
  "C14": dict(level=E,
-   text="118k (quick) / 4M (thorough) inputs (exhaustive 1-2 symbol strings over a 40-symbol alphabet, grammar-directed mutations of valid SML, size hints of every form, nesting ladders to 10^7, unterminated strings/comments, multi-byte runes, random bytes) to Parse/ParseStrict/ParseMessage/ParseHeader in memory-capped child processes that log each risky input first (a process death is attributed to it), error positions recomputed from the offset, a live allocation meter for size hints, a CPU-time scaling probe over 12 families, and a race phase with 16 goroutines each owning parser/encoder instances." + HELD,
+   text="118k (quick) / 4M (thorough) inputs (exhaustive 1-2 symbol strings over a 40-symbol alphabet, grammar-directed mutations of valid SML, size hints of every form, nesting ladders to 10^7 in seven shapes incl. levels that close a sibling before descending, size hints at the int32/int64 edges, unterminated strings/comments, multi-byte runes, random bytes) to Parse/ParseStrict/ParseMessage/ParseHeader in memory-capped child processes that log each risky input first (a process death is attributed to it), error positions recomputed from the offset, a live allocation meter for size hints, a CPU-time scaling probe over 12 families, and a race phase with 16 goroutines each owning parser/encoder instances." + HELD,
    note="Memory cap 4 GiB and the allocation bound for size hints are stated assumptions for 'resource-bounded'. Four genuine defects found here were repaired (panic, size-hint pre-allocation x2 keys, unbounded recursion). Quick-tier danger shards run with a 128 MiB max stack.",
    technique="crash-contained child processes with per-input attribution + allocation/CPU meters + error-position oracle; race detector for instance isolation"),
  "C15": dict(level=E,
@@ -84,11 +84,11 @@ claimed = {
    note="Trusts harness/ref/e4 as the reading of SEMI E4 (block format, 9.4.4 receiver algorithm, handshake). 'Within T4'/'expired' rest on measured gaps (premise; forked model, discarded only when the branches disagree).",
    technique="reference-implementation peer: independent E4 codec + receiver model on the other end of a real secs1 link; delivery/byte oracle under the race detector"),
  "C18": dict(level=F,
-   text="Two real secs1 connections (host, equipment) joined by a fault-injecting middlebox that parses the character stream with the reference E4 model and applies 302 (quick) / 3458 (thorough) fault plans: one flipped character at EVERY position of a block transmission, dropped/truncated blocks, every handshake character dropped or replaced, delays beyond T1/T2, persistent faults exhausting the retry limit, forced contention, random compositions; retry limits 0..3, 1-4 block messages, unique tokens. Offline scan of the recorded history: exactly-once intact in-order delivery of every successful send, attempts <= retry limit + 1, master-first contention resolution, no hang (watchdog + dump). Race build." + HELD,
+   text="Two real secs1 connections (host, equipment) joined by a fault-injecting middlebox that parses the character stream with the reference E4 model and applies 314 (quick) / 3482 (thorough) fault plans: one flipped character at EVERY position of a block transmission, dropped/truncated blocks, every handshake character dropped or replaced, delays beyond T1/T2, persistent faults exhausting the retry limit, forced contention, random compositions; retry limits 0..3, 1-4 block messages, unique tokens. Offline scan of the recorded history: exactly-once intact in-order delivery of every successful send, attempts <= retry limit + 1, master-first contention resolution, no hang (watchdog + dump). Race build." + HELD,
    note="Two genuine defects found: a block ACKed during link teardown whose message was then dropped is repaired (fix: commit); stale control characters consumed as handshake answers after a late grant remains a known finding (not a small repair). Overlaps of simultaneous sends are sampled; liveness is bounded (45 s send watchdog).",
    technique="fault-injecting middlebox between two real endpoints + offline exactly-once/order/retry-bound checker over the recorded line history"),
  "C19": dict(level=E,
-   text="Pure half: the two linktest decision functions (verif export) vs a reference written from the documented rules, exhaustive over a small ordered domain, and the whole failure-accounting loop folded over ALL ~300k (quick) / ~19M (thorough) observation histories of length <=6/8 x threshold 1..4 x suppression on/off, plus two reducer-independent invariants. E2E half: scripted peers (silent, answering, alive-but-not-answering with suppression on/off, chatty, withheld reply, silent peer while the local side keeps sending, life shown by a frame whose inline handler outlasts T6) on real connections; probe counts seen by the peer, still-connected checks, sound lower bound on the drop time, ControlMetrics vs peer counts." + HELD,
+   text="Pure half: the two linktest decision functions (verif export) vs a reference written from the documented rules, exhaustive over a small ordered domain, and the whole failure-accounting loop folded over ALL ~300k (quick) / ~19M (thorough) observation histories of length <=6/8 x threshold 1..4 x suppression on/off, plus two reducer-independent invariants. E2E half: scripted peers (silent, answering, alive-but-not-answering with suppression on/off, chatty, withheld reply, silent peer while the local side keeps sending, life shown by a frame whose inline handler outlasts T6, life shown by frames the local side answers) on real connections; probe counts seen by the peer, still-connected checks, sound lower bound on the drop time, ControlMetrics vs peer counts." + HELD,
    note="E2E timing is decided one-sidedly (counts and sound lower bounds); the chatty scenario needs a measured premise and is discarded otherwise.",
    technique="exhaustive reference-fold comparison of the real reducer + scripted-peer scenario monitors under the race detector"),
 }
